@@ -368,6 +368,16 @@ func (a *aliasScan) taintOf(f *aliasFn, e ast.Expr) string {
 			return ""
 		}
 		if fn == nil {
+			// a function-valued variable (sdk.MinDec, sdk.NewDecFromInt ... are variables of the SDK's types
+			// package) or a local closure: like a function the scan cannot look into
+			if id := maprangeCalleeIdent(x); id != nil && aliasFreshFuncs[id.Name] {
+				return ""
+			}
+			for _, arg := range x.Args {
+				if s := a.taintOf(f, arg); s != "" {
+					return s
+				}
+			}
 			return ""
 		}
 		if rs := a.g.resolve(fn); len(rs) > 0 {
@@ -557,6 +567,17 @@ func (a *aliasScan) propagate(f *aliasFn) {
 			}
 		case *ast.CallExpr:
 			a.propagateCall(f, x)
+		case *ast.TypeSwitchStmt:
+			// switch v := x.(type): v is one implicit variable per clause
+			if as, ok := x.Assign.(*ast.AssignStmt); ok && len(as.Rhs) == 1 {
+				if s := a.taintOf(f, as.Rhs[0]); s != "" {
+					for _, cl := range x.Body.List {
+						if o := info.Implicits[cl]; o != nil && a.carries(o.Type()) {
+							a.mark(a.taint, o, s)
+						}
+					}
+				}
+			}
 		case *ast.ReturnStmt:
 			if inLit(x) || f.obj == nil {
 				return true
@@ -611,8 +632,9 @@ func (a *aliasScan) sinks(f *aliasFn) {
 		if bi != nil {
 			return true
 		}
-		if fn != nil && len(a.g.resolve(fn)) > 0 {
-			return true // followed into the callee
+		if fn != nil && len(a.g.resolve(fn)) > 0 && !hooksIsInterfaceMethod(fn) {
+			return true // followed into the callee (an interface method may also have implementers the scan
+			// does not look into - generated code, other modules: judged like an external function as well)
 		}
 		// (1) the receiver
 		if fn != nil {
@@ -649,7 +671,9 @@ func (a *aliasScan) sinks(f *aliasFn) {
 			if t == nil {
 				continue
 			}
-			if _, isPtr := t.Underlying().(*types.Pointer); !isPtr {
+			switch t.Underlying().(type) {
+			case *types.Pointer, *types.Interface: // an address, or a box that may hold one
+			default:
 				continue
 			}
 			if s := a.taintOf(f, arg); s != "" {
@@ -733,6 +757,13 @@ func maprangeDefaultAlias(c *corpus) []maprangeAmbient {
 			}
 		}
 		sort.Strings(holders)
+		var uniq []string
+		for i, h := range holders {
+			if i == 0 || holders[i-1] != h {
+				uniq = append(uniq, h)
+			}
+		}
+		holders = uniq
 		rows = append(rows, maprangeAmbient{file: parts[0], fn: s, kind: "procstate-alias-src", what: parts[1], callers: holders})
 	}
 	return rows
